@@ -41,6 +41,7 @@ func newBatcher(bufferSize int) *Batcher {
 }
 
 func (s *Batcher) close() {
+	verifTrace("c.close", "", 0, 0)
 	close(s.c)
 }
 
@@ -57,6 +58,7 @@ func (s *Batcher) setSourceCount(count int) {
 
 // StartFileReading registers a given source as being read in the global read-pool
 func (s *Batcher) startFileReading(source string) {
+	verifTrace("src.open", source, 0, 0)
 	s.mux.Lock()
 	s.activeFiles = append(s.activeFiles, source)
 	s.mux.Unlock()
@@ -64,6 +66,7 @@ func (s *Batcher) startFileReading(source string) {
 
 // StopFileReading recognizes a source has stopped reading, and increments the fully-read counter
 func (s *Batcher) stopFileReading(source string) {
+	verifTrace("src.close", source, 0, 0)
 	s.mux.Lock()
 	for idx, ele := range s.activeFiles {
 		if ele == source {
@@ -76,6 +79,7 @@ func (s *Batcher) stopFileReading(source string) {
 }
 
 func (s *Batcher) incErrors() {
+	verifTrace("src.err", "", 0, 0)
 	s.mux.Lock()
 	s.errorCount++
 	s.mux.Unlock()
@@ -145,6 +149,7 @@ func (s *Batcher) StatusString() string {
 // syncReaderToBatcher reads a reader buffer and breaks up its scans to `batchSize`
 //  and writes the batch-sized results to a channel
 func (s *Batcher) syncReaderToBatcher(sourceName string, reader io.Reader, batchSize int) {
+	verifTrace("sync.begin", sourceName, uint64(batchSize), 0)
 	readerMetrics := newReaderMetrics(reader)
 	readahead := readahead.NewImmediate(readerMetrics, ReadAheadBufferSize)
 	readahead.OnError(func(e error) {
@@ -157,11 +162,13 @@ func (s *Batcher) syncReaderToBatcher(sourceName string, reader io.Reader, batch
 	for readahead.Scan() {
 		batch = append(batch, readahead.Bytes())
 		if len(batch) >= batchSize {
+			verifTrace("flush", sourceName, batchStart, uint64(len(batch)))
 			s.c <- extractor.InputBatch{
 				Batch:      batch,
 				Source:     sourceName,
 				BatchStart: batchStart,
 			}
+			verifTrace("sent", sourceName, batchStart, uint64(len(batch)))
 			batchStart += uint64(len(batch))
 			batch = make([]extractor.BString, 0, batchSize)
 
@@ -169,19 +176,23 @@ func (s *Batcher) syncReaderToBatcher(sourceName string, reader io.Reader, batch
 		}
 	}
 	if len(batch) > 0 {
+		verifTrace("flush.eof", sourceName, batchStart, uint64(len(batch)))
 		s.c <- extractor.InputBatch{
 			Batch:      batch,
 			Source:     sourceName,
 			BatchStart: batchStart,
 		}
+		verifTrace("sent", sourceName, batchStart, uint64(len(batch)))
 		s.incReadBytes(readerMetrics.CountReset())
 	}
+	verifTrace("sync.end", sourceName, 0, 0)
 }
 
 // syncReaderToBatcherWithTimeFlush is similar to `syncReaderToBatcher`, except if it gets a new line
 // it will flush the batch if n time has elapsed since the last flush, regardless of how many items are in the current batch
 // Good for potentially slow or more interactive workloads (tail, stdin, etc)
 func (s *Batcher) syncReaderToBatcherWithTimeFlush(sourceName string, reader io.Reader, batchSize int, autoFlush time.Duration) {
+	verifTrace("sync.begin", sourceName, uint64(batchSize), uint64(autoFlush))
 	readerMetrics := newReaderMetrics(reader)
 	readahead := readahead.NewImmediate(readerMetrics, ReadAheadBufferSize)
 	readahead.OnError(func(e error) {
@@ -196,11 +207,13 @@ func (s *Batcher) syncReaderToBatcherWithTimeFlush(sourceName string, reader io.
 	for readahead.Scan() {
 		batch = append(batch, readahead.Bytes())
 		if len(batch) >= batchSize || time.Since(lastBatchFlush) >= autoFlush {
+			verifTrace("flush", sourceName, batchStart, uint64(len(batch)))
 			s.c <- extractor.InputBatch{
 				Batch:      batch,
 				Source:     sourceName,
 				BatchStart: batchStart,
 			}
+			verifTrace("sent", sourceName, batchStart, uint64(len(batch)))
 			batchStart += uint64(len(batch))
 			batch = make([]extractor.BString, 0, batchSize)
 
@@ -209,11 +222,14 @@ func (s *Batcher) syncReaderToBatcherWithTimeFlush(sourceName string, reader io.
 		}
 	}
 	if len(batch) > 0 {
+		verifTrace("flush.eof", sourceName, batchStart, uint64(len(batch)))
 		s.c <- extractor.InputBatch{
 			Batch:      batch,
 			Source:     sourceName,
 			BatchStart: batchStart,
 		}
+		verifTrace("sent", sourceName, batchStart, uint64(len(batch)))
 		s.incReadBytes(readerMetrics.CountReset())
 	}
+	verifTrace("sync.end", sourceName, 0, 0)
 }
